@@ -307,6 +307,7 @@ class LogicalLinkController(object):
         self.sap = 64 * [None]
         self.sap[0] = ServiceAccessPoint(0, self)
         self.sap[1] = ServiceDiscovery(self)
+        self.terminated = False
 
     def __str__(self):
         local = "Local(MIU={miu}, LTO={lto}ms)".format(
@@ -407,6 +408,8 @@ class LogicalLinkController(object):
                 self.mac.deactivate(data=bytearray(b"\x01\x40"))
         finally:
             # shutdown local services, also if the device is gone
+            with self.lock:
+                self.terminated = True  # no socket can be bound any more
             for i in range(63, -1, -1):
                 if not self.sap[i] is None:
                     log.debug("closing service access point %d" % i)
@@ -731,6 +734,12 @@ class LogicalLinkController(object):
             raise err.Error(errno.ENOTSOCK)
         if socket.addr is not None:
             raise err.Error(errno.EINVAL)
+        with self.lock:
+            if self.terminated:
+                raise err.Error(errno.ESHUTDOWN)
+            self._bind(socket, addr_or_name)
+
+    def _bind(self, socket, addr_or_name):
         if addr_or_name is None:
             self._bind_by_none(socket)
         elif isinstance(addr_or_name, int):
